@@ -337,7 +337,9 @@ static inline Elem gen_elem(Rng &r, int maxdepth, bool force_bundle = false)
         for(int i = 0; i < n; ++i) e.kids.push_back(gen_elem(r, maxdepth - 1));
     } else {
         e.msg = gen_msg(r, 6, true);
-        if(e.msg.addr[0] == '#') e.msg.addr[0] = '/';   // a message, not something that spells "#bundle"
+        // addresses that come close to the bundle marker stay messages; only the exact spelling is a bundle
+        if(r.chance(0.04)) { static const char *near[] = {"#bundle2", "#bundles/gain", "#bundl", "#bundlE", "#bundle/", "#bundle#", "#bundle "}; e.msg.addr = near[r.below(7)]; }
+        if(e.msg.addr == "#bundle") e.msg.addr = "/bundle";
     }
     return e;
 }
